@@ -313,8 +313,8 @@ fn run_property(
         }
     }
 
-    // known findings that were met
-    for (sig, n) in &total.excluded {
+    // known findings that were met (the fixed_point child reports through the parent)
+    for (sig, n) in total.excluded.iter().filter(|_| partial.is_none()) {
         let desc = run
             .known
             .iter()
